@@ -116,14 +116,18 @@ func Curated() []*Grammar {
 		{Name: "X->Yb;Y->Ya|b|X", Rules: []*G{S(N(1), b), A(S(N(1), a), b, N(0))}, Finite: true, Recursive: true},
 		{Name: "R->M|((M|a+)|(M|a+b));M->a|ab|abx", Rules: []*G{A(N(1), A(A(N(1), M1(a)), A(N(1), S(M1(a), b)))), A(a, S(a, b), S(a, b, x))}, Finite: true, LRFree: true},
 		{Name: "R->(M|x)|(M|a+)|(M|a+b);M->a|ab|abx", Rules: []*G{A(A(N(1), x), A(N(1), M1(a)), A(N(1), S(M1(a), b))), A(a, S(a, b), S(a, b, x))}, Finite: true, LRFree: true},
+		{Name: "R->(a?|Q)x|Qb;Q->b?|x", Rules: []*G{A(S(A(O(a), N(1)), x), S(N(1), b)), A(O(b), x)}, Finite: true, LRFree: true},
+		{Name: "choice((ab)?,x)b?", Rules: []*G{S(C(O(S(a, b)), x), O(b))}, Finite: true, LRFree: true},
 		{Name: "(a|nl)*b", Rules: []*G{S(M(A(a, nl)), b)}, Finite: true, LRFree: true},
 		{Name: "L->L nl a|a", Rules: []*G{A(S(N(0), nl, a), a)}, Finite: true, Recursive: true},
 	})
 }
 
 // Systematic builds the k-th sampled grammar of the generated part of the
-// family: two memoized nonterminals, each a union (Any) of 1..3 alternatives,
-// each alternative a sequence of 1..3 symbols from {a, b, N0, N1}. The sample
+// family: two memoized nonterminals, each a union (Any; one in five a Choice)
+// of 1..3 alternatives, each alternative a sequence of 1..3 symbols from
+// {a, b, P, Q} or, one time in six, an optional group (x)?, (xy)? or a
+// repetition x+ over terminals. The sample
 // is drawn by a fixed pseudo-random sequence from the seed, so every run with
 // the same seed checks the same grammars and different seeds check others.
 // No empty alternatives: every tree is finite and every grammar has finitely
@@ -151,6 +155,12 @@ func Systematic(seed, k int) *Grammar {
 		}
 		return N(1), "Q"
 	}
+	term := func() (*G, string) {
+		if next(2) == 0 {
+			return T('a'), "a"
+		}
+		return T('b'), "b"
+	}
 	rules := make([]*G, 2)
 	for r := range rules {
 		if r == 0 {
@@ -158,29 +168,65 @@ func Systematic(seed, k int) *Grammar {
 		} else {
 			name += ";Q->"
 		}
+		// one rule body in five is a Choice (first match); its alternatives
+		// start with a terminal so that every nonterminal in them is guarded
+		choice := next(5) == 0
 		nalt := 1 + next(3)
 		var alts []*G
+		sep := "|"
+		if choice {
+			sep = "/"
+		}
 		for i := 0; i < nalt; i++ {
 			if i > 0 {
-				name += "|"
+				name += sep
 			}
 			l := 1 + next(3)
 			var seq []*G
 			nts := 0
+			groups, plain := 0, 0
 			for j := 0; j < l; j++ {
-				g, n := sym()
-				// no unit alternatives (cycles of unit rules multiply duplicates
-				// without adding trees) and at most two nonterminals per alternative
-				for g.K == KNT && (l == 1 || nts >= 2) {
+				var g *G
+				var n string
+				switch {
+				case l >= 2 && next(6) == 0 && !(choice && j == 0):
+					// an optional group of one or two terminals, or a repetition
+					t1, n1 := term()
+					switch next(3) {
+					case 0:
+						g, n = O(t1), "("+n1+")?"
+					case 1:
+						t2, n2 := term()
+						g, n = O(S(t1, t2)), "("+n1+n2+")?"
+					default:
+						g, n = M1(t1), n1+"+"
+						plain++
+					}
+					groups++
+				default:
 					g, n = sym()
-				}
-				if g.K == KNT {
-					nts++
+					// no unit alternatives (cycles of unit rules multiply duplicates
+					// without adding trees), at most two nonterminals per alternative,
+					// and a terminal first in a Choice alternative
+					for g.K == KNT && (l == 1 || nts >= 2 || (choice && j == 0)) {
+						g, n = sym()
+					}
+					if g.K == KNT {
+						nts++
+					} else {
+						plain++
+					}
 				}
 				seq = append(seq, g)
 				name += n
 			}
-			if l == 1 {
+			if groups > 0 && plain == 0 {
+				// an alternative with optional groups must consume: add a terminal
+				t, n := term()
+				seq = append(seq, t)
+				name += n
+			}
+			if len(seq) == 1 {
 				alts = append(alts, seq[0])
 			} else {
 				alts = append(alts, S(seq...))
@@ -188,14 +234,15 @@ func Systematic(seed, k int) *Grammar {
 		}
 		// a terminal alternative so that the nonterminal derives something
 		if next(4) != 0 {
-			g, n := sym()
-			for g.K == KNT {
-				g, n = sym()
-			}
+			g, n := term()
 			alts = append(alts, g)
-			name += "|" + n
+			name += sep + n
 		}
-		rules[r] = A(alts...)
+		if choice {
+			rules[r] = C(alts...)
+		} else {
+			rules[r] = A(alts...)
+		}
 	}
 	return &Grammar{Name: name, Rules: rules, Finite: true, Recursive: true, MaxN: 4}
 }
@@ -231,10 +278,59 @@ func Sharing() []*Grammar {
 		{Name: "R->M?b|M?x|M?a;M->a|aa|aaa", Rules: []*G{A(S(O(N(1)), b), S(O(N(1)), x), S(O(N(1)), a)), m3}, Finite: true},
 		{Name: "R->M|((M|a+)|(M|a+b));M->a|ab|abx", Rules: []*G{A(N(1), A(A(N(1), M1(a)), A(N(1), S(M1(a), b)))), A(a, S(a, b), S(a, b, x))}, Finite: true},
 		{Name: "R->(M|x)|(M|a+)|(M|a+b);M->a|ab|abx", Rules: []*G{A(A(N(1), x), A(N(1), M1(a)), A(N(1), S(M1(a), b))), A(a, S(a, b), S(a, b, x))}, Finite: true},
+		{Name: "R->(a?|Q)x|Qb;Q->b?|x", Rules: []*G{A(S(A(O(a), N(1)), x), S(N(1), b)), A(O(b), x)}, Finite: true},
+		{Name: "R->(a?|Q)|Q;Q->b?|x|xx", Rules: []*G{A(A(O(a), N(1)), N(1)), A(O(b), x, S(x, x))}, Finite: true},
 		{Name: "R->rtrim(M)b|Mx;M->a", Rules: []*G{A(S(RT(N(1)), b), S(N(1), x)), a}, Finite: true},
 		{Name: "R->rtrim(M)b|Mx;M->a|aa", Rules: []*G{A(S(RT(N(1)), b), S(N(1), x)), A(a, S(a, a))}, Finite: true},
 		{Name: "R->Mx|rtrim(M)b;M->a", Rules: []*G{A(S(N(1), x), S(RT(N(1)), b)), a}, Finite: true},
 	})
+}
+
+// Productive reports whether every nonterminal derives at least one terminal
+// string (a rule such as Q -> Q P alone does not).
+func (g *Grammar) Productive() bool {
+	prod := make([]bool, len(g.Rules))
+	var ok func(e *G) bool
+	ok = func(e *G) bool {
+		switch e.K {
+		case KTerm, KEmpty, KOpt, KMany, KSepBy:
+			return true
+		case KNT:
+			return prod[e.NT]
+		case KAny, KChoice:
+			for _, k := range e.Kids {
+				if ok(k) {
+					return true
+				}
+			}
+			return false
+		case KSeqTry, KSeqFirstOrAll:
+			return ok(e.Kids[0])
+		case KMany1, KSepBy1, KRTrim:
+			return ok(e.Kids[0])
+		}
+		for _, k := range e.Kids {
+			if !ok(k) {
+				return false
+			}
+		}
+		return true
+	}
+	for changed := true; changed; {
+		changed = false
+		for i, r := range g.Rules {
+			if !prod[i] && ok(r) {
+				prod[i] = true
+				changed = true
+			}
+		}
+	}
+	for _, p := range prod {
+		if !p {
+			return false
+		}
+	}
+	return true
 }
 
 // HasTrim reports whether the grammar uses RightTrim.
